@@ -16,6 +16,11 @@ def main():
         print(rec.get("solver"))
         return 1
     print("arguments  :", rec.get("args"))
+    if rec.get("script"):
+        print("script     :\n" + rec["script"])
+        print("observed now under %s:\n%s" % (loader.REPLAY_PY, bounded.run_script(rec["script"])))
+        print("observed when recorded :\n%s" % rec.get("observed_under_venv_python"))
+        return 1
     pos = eval(rec["args_code"], {"ecdsa": __import__("ecdsa")})
     mod, q, node = loader.find_function(rec["function"])
     script = bounded.REPLAY_TEMPLATE % dict(src=loader.REPO_SRC, mods=loader.MODULE_NAMES, args=rec["args_code"],
